@@ -276,6 +276,7 @@ pub struct Sink {
     pub n_resp: usize,
     pub n_bal: usize,
     pub n_trade: usize,
+    pub n_refused: usize,
     pub last_market: u32,
     pub fills: Vec<Value>,
     pub order_states: Vec<Value>,
@@ -433,6 +434,14 @@ impl ActStrategy {
                         }
                         "order" => {
                             s.n_resp += 1;
+                            // every order of a scenario is for a listed instrument and well within the funds of the
+                            // account: an order the simulated exchange REFUSES was not handled by this run's own exchange
+                            // (request time-outs are judged separately)
+                            let state_str = detail["state"].as_str().unwrap_or("");
+                            if state_str.starts_with("failed") && !state_str.contains("Timeout") {
+                                s.n_refused += 1;
+                                s.anomalies.push(format!("order-refused: order {cid} was refused by the run's simulated exchange: {state_str}"));
+                            }
                             s.order_states.push(json!({"cid": cid, "detail": detail}));
                             if cid.starts_with(&format!("r{}-", self.run)) { k_of_cid(&cid) } else { -1 }
                         }
@@ -495,7 +504,7 @@ impl ActStrategy {
         }
         let Some(slot) = self.shared.slots.get(self.run) else { return };
         let n = s.fired.len();
-        let settled = s.n_resp >= n && s.n_bal >= n && s.n_trade >= n;
+        let settled = s.n_resp >= n && s.n_bal + s.n_refused >= n && s.n_trade + s.n_refused >= n;
         slot.send_modify(|p| {
             p.snap = s.n_snap > 0;
             if settled {
@@ -783,7 +792,14 @@ where
 // ------------------------------------------------------------------------------------------
 // world
 // ------------------------------------------------------------------------------------------
-fn instruments(untraded_exchange: bool) -> IndexedInstruments {
+fn instruments(untraded_exchange: bool, narrow: bool) -> IndexedInstruments {
+    if narrow {
+        // a universe of ONE instrument (the first scenario of a process runs over it: what a backtest's exchange
+        // lists is the universe of THAT backtest, whatever ran in the process before)
+        return IndexedInstruments::builder()
+            .add_instrument(Instrument::spot(EXCHANGE, "binance_spot_btc_usdt", "BTCUSDT", Underlying::new("btc", "usdt"), None))
+            .build();
+    }
     let b = IndexedInstruments::builder()
         .add_instrument(Instrument::spot(EXCHANGE, "binance_spot_btc_usdt", "BTCUSDT", Underlying::new("btc", "usdt"), None))
         .add_instrument(Instrument::spot(EXCHANGE, "binance_spot_eth_usdt", "ETHUSDT", Underlying::new("eth", "usdt"), None));
@@ -795,7 +811,7 @@ fn instruments(untraded_exchange: bool) -> IndexedInstruments {
     }
 }
 
-fn mock_config(latency_ms: u64) -> MockExecutionConfig {
+fn mock_config(latency_ms: u64, narrow: bool) -> MockExecutionConfig {
     // balances large enough for every order of a scenario whichever asset the sell arm debits
     // (F3 / C08) - before and after that fix every order is accepted
     let bal = |a: &str, x: i64| AssetBalance {
@@ -807,7 +823,8 @@ fn mock_config(latency_ms: u64) -> MockExecutionConfig {
         mocked_exchange: EXCHANGE,
         initial_state: UnindexedAccountSnapshot {
             exchange: EXCHANGE,
-            balances: vec![bal("btc", 100_000), bal("eth", 100_000), bal("usdt", 100_000_000)],
+            // (the account lists the assets of the run's own universe)
+            balances: if narrow { vec![bal("btc", 100_000), bal("usdt", 100_000_000)] } else { vec![bal("btc", 100_000), bal("eth", 100_000), bal("usdt", 100_000_000)] },
             instruments: vec![],
         },
         latency_ms,
@@ -925,6 +942,13 @@ fn plan(seed: u64, tier: &str) -> Vec<Value> {
     let thorough = tier == "thorough";
     let mut out = vec![];
     let mut name = 0;
+    // the FIRST scenario of the process runs over a universe of one instrument; the scenarios after it trade a
+    // second instrument the first one never listed
+    {
+        let acts = random_acts(&mut rng, &[3, 10, 20], 3);
+        out.push(json!({"name": "n0", "mode": "inmem", "workers": 1, "n": 30, "data_seed": seed * 1000 + 999, "recs": [5], "points": [],
+                        "latency_ms": 0, "alone": true, "late": [], "narrow": true, "runs": [{"variant": 0, "acts": acts}]}));
+    }
     // (dataset size, [(K, workers)]) - the cost of validating a run's log grows with n^2
     let gated: Vec<(usize, Vec<(usize, usize)>)> = if thorough {
         vec![
@@ -1151,8 +1175,17 @@ fn run_scenario(scn: &Value, trace: &mut Out, results: &mut Out, totals: &mut Va
         usage("a failing data source is available in the paused family only");
     }
     let data_only = scn["data_only"].as_bool().unwrap_or(false);
-    let events = Arc::new(dataset(n, data_seed, &recs, &late, data_only, &points));
-    let instruments = instruments(data_only || scn["untraded_exchange"].as_bool().unwrap_or(false));
+    let narrow = scn["narrow"].as_bool().unwrap_or(false);
+    let mut events = dataset(n, data_seed, &recs, &late, data_only, &points);
+    if narrow {
+        for e in events.iter_mut() {
+            if let MarketStreamEvent::Item(m) = e {
+                m.instrument = InstrumentIndex(0);
+            }
+        }
+    }
+    let events = Arc::new(events);
+    let instruments = instruments(data_only || scn["untraded_exchange"].as_bool().unwrap_or(false), narrow);
     let engine_state: State = EngineState::builder(&instruments, RecGlobal::default(), RecInst::default)
         .time_engine_start(time(3600))
         .trading_state(TradingState::Enabled)
@@ -1163,7 +1196,12 @@ fn run_scenario(scn: &Value, trace: &mut Out, results: &mut Out, totals: &mut Va
     let mut outs: Vec<RunOut> = vec![];
     let mut dynamics = vec![];
     for (r, rj) in runs_json.iter().enumerate() {
-        let acts = acts_of(&rj["acts"]);
+        let mut acts = acts_of(&rj["acts"]);
+        if narrow {
+            for a in acts.iter_mut() {
+                a.inst = 0;
+            }
+        }
         if gated {
             for a in &acts {
                 if !points.contains(&a.k) {
@@ -1189,7 +1227,7 @@ fn run_scenario(scn: &Value, trace: &mut Out, results: &mut Out, totals: &mut Va
         tokio::runtime::Builder::new_multi_thread().worker_threads(workers).enable_all().build()
     }
     .unwrap_or_else(|e| tool_error(&format!("runtime: {e}")));
-    let executions = vec![ExecutionConfig::Mock(mock_config(latency))];
+    let executions = vec![ExecutionConfig::Mock(mock_config(latency, narrow))];
     let gate_timeouts = Arc::new(AtomicUsize::new(0));
     let extra_streams = Arc::new(AtomicUsize::new(0));
 
